@@ -207,6 +207,16 @@ theorem castling_rights_never_regained (p g : Pos) (ms : List Mv) (h : Playable 
     (hb : p.castle &&& bit = 0) : g.castle &&& bit = 0 :=
   castle_monotone p g ms h bit hb
 
+/-- **the castling part of `computeBlocked`'s blocked set**: while a castling right survives to the goal, no move of the
+    line starts from or ends on the king's or the rook's home square of that right (`castleKeep s &&& bit = 0` holds for
+    exactly those squares) — which is why `computeBlocked` may add E1/H1, E1/A1, E8/H8, E8/A8 to `blocked` -/
+theorem castling_squares_untouched (p g : Pos) (ms : List Mv) (h : Playable p ms g) (bit : UInt8) (s : Sq)
+    (hs : castleKeep s &&& bit = 0) (hg : g.castle &&& bit ≠ 0) : ∀ m ∈ ms, m.f ≠ s ∧ m.t ≠ s :=
+  castle_squares_untouched p g ms h bit s hs hg
+
+example : castleKeep (sq 4) &&& 2 = 0 ∧ castleKeep (sq 7) &&& 2 = 0 ∧ castleKeep (sq 0) &&& 1 = 0 ∧
+    castleKeep (sq 60) &&& 8 = 0 ∧ castleKeep (sq 63) &&& 8 = 0 ∧ castleKeep (sq 56) &&& 4 = 0 := by decide
+
 /-- a `QuietLine` is in particular a legal line of the specification -/
 theorem quiet_line_playable (B : Sq → Bool) (p q : Pos) (ms : List Mv) (h : QuietLine B p ms q) : Playable p ms q :=
   h.playable
